@@ -60,6 +60,11 @@ SEEDS = {
         },
         "edges": [(7, 5), (5, 3), (5, 2)],
     },
+    # node id 0 (falsy) and ids unordered in time; noseg worlds only (0 is background in arrays)
+    "zero": {
+        "nodes": {0: (0, (0, 2, 0, 2)), 4: (1, (0, 2, 1, 3)), 2: (2, (1, 3, 1, 3)), 3: (2, (2, 4, 3, 5))},
+        "edges": [(0, 4), (4, 2), (4, 3)],
+    },
     # two divisions side by side (a refusal in one lineage while a stroke overwrites
     # both daughters of the other)
     "twodiv": {
@@ -93,6 +98,11 @@ WORLDS = {
     "noseg-2d": dict(ndim=3, seg=False, scale=None, pos="single", extra=[], custom=True, ids="compute"),
     "noseg-2d-given": dict(ndim=3, seg=False, scale=None, pos="single", extra=[], custom=True, ids="given"),
     "noseg-2d-fd": dict(ndim=3, seg=False, scale=None, pos="single", extra=[], custom=False, ids="featuredict"),
+    # renamed time / position / track / lineage keys
+    "noseg-2d-renamed": dict(ndim=3, seg=False, scale=None, pos="single", extra=[], custom=True, ids="compute",
+                             keys=dict(time="t", pos="loc", track="tid", lineage="lin")),
+    "noseg-2d-renamed-given": dict(ndim=3, seg=False, scale=None, pos="single", extra=[], custom=True, ids="given",
+                                   keys=dict(time="t", pos="loc", track="tid", lineage="lin")),
     "noseg-3d": dict(ndim=4, seg=False, scale=[1.0, 2.0, 1.0, 0.75], pos="single", extra=[], custom=True, ids="compute"),
     "noseg-2d-axes": dict(ndim=3, seg=False, scale=None, pos="axes", extra=[], custom=True, ids="compute"),
     "seg-2d": dict(ndim=3, seg=True, scale=None, pos="single", extra=["iou"], custom=True, ids="compute"),
@@ -112,9 +122,13 @@ WORLDS = {
 }
 
 
+DEFAULT_KEYS = dict(time="time", pos="pos", track="track_id", lineage="lineage_id")
+
+
 def world(name: str) -> dict:
     w = dict(WORLDS[name])
     w["name"] = name
+    w["keys"] = dict(DEFAULT_KEYS, **w.get("keys", {}))
     return w
 
 
@@ -168,7 +182,7 @@ def make_graph(w, seed) -> tuple[nx.DiGraph, np.ndarray | None]:
     seg = None
     if w["seg"]:
         seg = np.zeros((T, *frame_shape(w)), dtype=w.get("dtype", "int32"))
-    tkey = "time"
+    tkey = w["keys"]["time"]
     for n, (t, rect) in seed["nodes"].items():
         attrs = {tkey: t}
         if w["seg"]:
@@ -180,7 +194,7 @@ def make_graph(w, seed) -> tuple[nx.DiGraph, np.ndarray | None]:
                 for k, v in zip(names, p):
                     attrs[k] = v
             else:
-                attrs["pos"] = p
+                attrs[w["keys"]["pos"]] = p
         if w["custom"] and n % 2 == 1:
             attrs["score"] = (n - 1) * 0.5  # node 1 carries the falsy value 0.0
         g.add_node(n, **attrs)
@@ -192,10 +206,10 @@ def make_graph(w, seed) -> tuple[nx.DiGraph, np.ndarray | None]:
     if w["ids"] in ("given", "featuredict"):
         for i, s in enumerate(sorted(segments(g), key=lambda s: min(s))):
             for n in s:
-                g.nodes[n]["track_id"] = 3 * i + 2
+                g.nodes[n][w["keys"]["track"]] = 3 * i + 2
         for j, c in enumerate(sorted(components(g), key=lambda s: min(s))):
             for n in c:
-                g.nodes[n]["lineage_id"] = 2 * j + 5
+                g.nodes[n][w["keys"]["lineage"]] = 2 * j + 5
     return g, seg
 
 
@@ -235,8 +249,12 @@ def build(w, seed) -> SolutionTracks:
                          tracklet_key="track_id", lineage_key="lineage_id")
         tracks = SolutionTracks(g, segmentation=seg, ndim=w["ndim"], scale=w["scale"], features=fd)
     else:
+        k = w["keys"]
+        renamed = k != DEFAULT_KEYS
         tracks = SolutionTracks(
-            g, segmentation=seg, pos_attr=pos_attr, scale=w["scale"], ndim=w["ndim"]
+            g, segmentation=seg, pos_attr=pos_attr if not renamed else k["pos"], scale=w["scale"], ndim=w["ndim"],
+            time_attr=k["time"] if renamed else None, tracklet_attr=k["track"] if renamed else None,
+            lineage_attr=k["lineage"] if renamed else None,
         )
     if w["extra"]:
         tracks.enable_features(list(w["extra"]))
